@@ -36,8 +36,7 @@ func (prop) Level() string { return "exploration" }
 
 // T is the struct type of struct-typed globals.
 type T struct {
-	A int
-	S string
+	A, B int
 }
 
 // initSpec says how one global is supplied to a run.
@@ -57,10 +56,11 @@ func (prop) Drive(d *core.Driver) error {
 	d.T.Rule = "a random straight-line program over 1-4 globals declared without a value (string/int/struct) and same-named variables of an auto-imported package p is rendered to template files: reads and writes at top level, in macros declared before/after the first top-level use, in function literals, in an imported file, in an extended layout and in rendered partials, inside if/for; each template is built once and run 3 times (values, pointers, no variables; random subsets). distinct_nontrivial counts distinct (file layout, variable type, initialiser mode, kind of unit holding the first executed reference, kind of unit holding the first reference in source order) tuples over variables that were read at least once"
 	d.T.Assumptions = []string{"values are alphanumeric, so no escaping interferes with the event log", "UsedVars is only required to contain the globals referenced by executed code (the documentation allows dead code to be missed)"}
 	firstTop := d.InScope("first-ref-in-macro")
+	noQual := d.InScope("qualified-package-var-in-closure")
 	var cases []core.Case
 	for i := 0; i < n; i++ {
 		r := core.Rand(d.Seed, fmt.Sprintf("C17/%d", i))
-		cd := genCase(r, firstTop)
+		cd := genCase(r, firstTop, noQual)
 		cases = append(cases, core.NewCase(fmt.Sprintf("prog-%d", i), cd))
 		if i < 2 {
 			d.T.Sample(map[string]any{"files": cd.Files, "runs": cd.Runs})
@@ -70,8 +70,8 @@ func (prop) Drive(d *core.Driver) error {
 	return nil
 }
 
-func genCase(r *rand.Rand, firstTop bool) caseData {
-	p := generate(r, firstTop)
+func genCase(r *rand.Rand, firstTop, noQual bool) caseData {
+	p := generate(r, firstTop, noQual)
 	// make sure an imported file is used
 	for _, m := range p.Macros {
 		if m.File == "lib" {
@@ -112,8 +112,10 @@ func goValue(typ string, v value) any {
 		return v.S
 	case "int":
 		return v.N
+	case "A3":
+		return [3]int{v.N, v.N + 1, v.N + 2}
 	}
-	return T{A: v.N, S: "keep"}
+	return T{A: v.N, B: v.N + 1}
 }
 
 func ptrTo(x any) any {
@@ -130,6 +132,8 @@ func declarations(p *prog) native.Declarations {
 			return (*string)(nil)
 		case "int":
 			return (*int)(nil)
+		case "A3":
+			return (*[3]int)(nil)
 		}
 		return (*T)(nil)
 	}
@@ -155,10 +159,12 @@ func firstTextual(p *prog) map[string]string {
 	walk = func(ops []op, kind string) {
 		for _, o := range ops {
 			switch o.K {
-			case "read", "write":
+			case "read", "write", "ptrw", "inc":
 				if _, ok := first[o.V]; !ok {
 					first[o.V] = kind
 				}
+			case "tuple":
+				walk(o.Body, kind)
 			case "defc":
 				if _, ok := first[o.V]; !ok {
 					first[o.V] = "closure"
@@ -275,19 +281,28 @@ func (prop) Work(c core.Case) core.Result {
 		res.Counts["reads_checked"] += int64(len(got))
 		// pointer initialisers share the variable, value initialisers are copied
 		for _, g := range p.Globals {
-			final, touched := m.reg[g.Name], m.used[g.Name]
+			touched := m.used[g.Name]
 			if pv, ok := ptrs[g.Name]; ok {
-				var gotV value
+				// every component of the caller's variable against the model
+				got := map[string]value{}
 				switch g.Type {
 				case "string":
-					gotV.S = pv.Elem().String()
+					got[""] = value{S: pv.Elem().String()}
 				case "int":
-					gotV.N = int(pv.Elem().Int())
+					got[""] = value{N: int(pv.Elem().Int())}
+				case "A3":
+					a := pv.Elem().Interface().([3]int)
+					for i, c := range components("A3") {
+						got[c] = value{N: a[i]}
+					}
 				default:
-					gotV.N = pv.Elem().Interface().(T).A
+					t := pv.Elem().Interface().(T)
+					got["A"], got["B"] = value{N: t.A}, value{N: t.B}
 				}
-				if gotV != final {
-					return fail("run %d: global %s was passed as a pointer; after Run the caller's variable holds %+v, the template's last write was %+v (touched=%v)", run, g.Name, gotV, final, touched)
+				for c, gv := range got {
+					if final := m.reg[key(g.Name, c)]; gv != final {
+						return fail("run %d: global %s was passed as a pointer; after Run component %q of the caller's variable holds %+v, the template's last write was %+v (caller's value %v, touched=%v)", run, g.Name, c, gv, final, pv.Elem().Interface(), touched)
+					}
 				}
 				res.Counts["pointer_vars_checked"]++
 			}
@@ -302,15 +317,19 @@ func (prop) Work(c core.Case) core.Result {
 		// value (they were copied), pointer initialisers the value left by the
 		// previous run
 		if run == 0 && len(vars) > 0 {
-			init2 := map[string]value{}
+			init2, left := map[string]value{}, map[string]value{}
 			for _, g := range p.Globals {
 				if _, ok := ptrs[g.Name]; ok {
-					init2[g.Name] = m.reg[g.Name]
+					for _, c := range append([]string{""}, components(g.Type)...) {
+						if v, ok := m.reg[key(g.Name, c)]; ok {
+							left[key(g.Name, c)] = v
+						}
+					}
 				} else if s, ok := spec[g.Name]; ok {
 					init2[g.Name] = s.Val
 				}
 			}
-			m2 := newMachine(p, init2)
+			m2 := newMachine(p, init2, left)
 			m2.run(p.Main)
 			ro2 := tmplfiles.Outcome{}
 			tmplfiles.Run(t, vars, &ro2)
@@ -327,18 +346,26 @@ func (prop) Work(c core.Case) core.Result {
 			usedSet[u] = true
 		}
 		for v := range m.used {
-			if strings.HasPrefix(v, "p.") {
+			if strings.HasPrefix(v, "p.") || strings.HasPrefix(v, "L:") {
 				continue
 			}
 			if !usedSet[v] {
 				return fail("global %s is referenced by executed code but UsedVars() = %v", v, used)
 			}
 		}
-		all := strings.Join(mapValues(cd.Files), "\n")
+		// UsedVars names only globals (variables declared in BuildOptions.Globals)
+		// that some file refers to, each once: not the variables of packages,
+		// not the package variables of imported files
+		mentioned := mentionedGlobals(p)
+		seenUsed := map[string]bool{}
 		for _, u := range used {
-			if !strings.Contains(all, u) {
-				return fail("UsedVars() = %v reports %s, which no file references", used, u)
+			if !mentioned[u] {
+				return fail("UsedVars() = %v reports %s, which is not a global that a file refers to (globals referred to: %v; package p declares %v; lib.html declares %q)", used, u, keysOf(mentioned), p.PkgVars, p.LibVar)
 			}
+			if seenUsed[u] {
+				return fail("UsedVars() = %v reports %s twice", used, u)
+			}
+			seenUsed[u] = true
 		}
 		for v := range m.used {
 			mode := "absent"
@@ -374,7 +401,14 @@ func mapValues(m map[string]string) []string {
 func (m *machine) runTracked(ops []op, kind string, unitOf map[string]string) {
 	for _, o := range ops {
 		switch o.K {
-		case "read", "write", "defc":
+		case "tuple":
+			for _, w := range o.Body {
+				if _, ok := unitOf[w.V]; !ok {
+					unitOf[w.V] = kind
+				}
+			}
+			m.run([]op{o})
+		case "read", "write", "defc", "ptrw", "inc":
 			if _, ok := unitOf[o.V]; !ok {
 				k := kind
 				if o.K == "defc" {
@@ -404,4 +438,36 @@ func (m *machine) runTracked(ops []op, kind string, unitOf map[string]string) {
 			m.run([]op{o})
 		}
 	}
+}
+
+// mentionedGlobals returns the globals (main package) that some unit of the
+// program refers to, executed or not.
+func mentionedGlobals(p *prog) map[string]bool {
+	m := map[string]bool{}
+	var walk func(ops []op)
+	walk = func(ops []op) {
+		for _, o := range ops {
+			if o.V != "" && !strings.HasPrefix(o.V, "p.") && !strings.HasPrefix(o.V, "L:") {
+				m[o.V] = true
+			}
+			walk(o.Body)
+		}
+	}
+	walk(p.Main)
+	for _, mc := range p.Macros {
+		walk(mc.Ops)
+	}
+	for _, ops := range p.Partials {
+		walk(ops)
+	}
+	return m
+}
+
+func keysOf(m map[string]bool) []string {
+	var k []string
+	for s := range m {
+		k = append(k, s)
+	}
+	sort.Strings(k)
+	return k
 }
